@@ -6,11 +6,13 @@
    token lists, 8 pixels per byte) for images of any size; and, at the level of the property's wording, what a
    standard BMP reader (offset field, width / height / bits-per-pixel fields, 4-byte aligned stride, bottom-up rows)
    sees in the whole file written for an 8-bit or 1-bit image: the source pixel inside the image area, background
-   elsewhere (C06_bmp*_reader).  NOT proved (model + correspondence + direct oracle only): the 16- and 32-bit
-   decoders; see the open known findings of C06. *)
+   elsewhere (C06_bmp*_reader); the 32-bit decoder (any segmentation of the linear stream) and the 16-bit decoder
+   (tokens confined to a colour plane) with their reader-level theorems, for images without registration offsets
+   (those decoders do not apply the offsets: open finding).  NOT proved: 16/32-bit raw storage (not implemented in
+   /repo: open finding). *)
 From Coq Require Import List ZArith Lia.
 From Coq.Strings Require Import Byte.
-From DRX Require Import Py.PyBytes Model.Riff Model.Clut Model.Bitd Proofs.BitdFacts Proofs.BitdRawFacts Proofs.Bitd1Facts Proofs.BmpReadFacts Proofs.Bitd24Facts Proofs.Bmp24ReadFacts.
+From DRX Require Import Py.PyBytes Model.Riff Model.Clut Model.Bitd Proofs.BitdFacts Proofs.BitdRawFacts Proofs.Bitd1Facts Proofs.BmpReadFacts Proofs.Bitd24Facts Proofs.Bmp24ReadFacts Proofs.Bitd16Facts Proofs.Bmp16ReadFacts.
 Import ListNotations.
 Open Scope Z_scope.
 
@@ -180,6 +182,40 @@ Example C06_reader_example24 :      (* a 3 x 2 image: odd width, rows padded fro
   end.
 Proof. vm_compute. split; reflexivity. Qed.
 
+(* ---- 16 bit ---- *)
+(* a stored row has two planes of w bytes (high bytes, low bytes); the decoder moves to the next plane / row before a
+   token that would not fit, so the theorem is for encodings whose tokens stay inside a plane (confined): the scan-line
+   encodings of the property's quantifier ("runs confined to a colour plane") *)
+Theorem C06_compressed16_pixels : forall w h ts rows,
+  0 < w -> Forall wf_tok ts -> confined w (w * 2) 0 ts -> dec_toks ts = concat rows ->
+  Forall (fun r => zlen r = w * 2) rows -> zlen rows = h ->
+  decode_compressed16 (enc_toks ts) w h (w * 2) = Ok (concat (map (out_row16 w) (rev rows))).
+Proof. exact compressed16_pixels. Qed.
+Theorem C06_compressed16_encoding_independent : forall w h ts1 ts2 rows,
+  0 < w -> Forall wf_tok ts1 -> Forall wf_tok ts2 -> confined w (w * 2) 0 ts1 -> confined w (w * 2) 0 ts2 ->
+  dec_toks ts1 = concat rows -> dec_toks ts2 = concat rows ->
+  Forall (fun r => zlen r = w * 2) rows -> zlen rows = h ->
+  decode_compressed16 (enc_toks ts1) w h (w * 2) = decode_compressed16 (enc_toks ts2) w h (w * 2).
+Proof. exact compressed16_encoding_independent. Qed.
+Theorem C06_bmp16_reader : forall bw bh pw ph ts rows,
+  0 < bw -> 0 <= ph -> Forall wf_tok ts -> confined bw (bw * 2) 0 ts -> dec_toks ts = concat rows ->
+  Forall (fun r => zlen r = bw * 2) rows -> zlen rows = bh ->
+  bw < 2 ^ 31 -> bh < 2 ^ 31 -> bw * bh * 2 + 138 < 2 ^ 31 -> zlen (enc_toks ts) <> (bw - pw) * 2 * (bh - ph) ->
+  exists bmp, decode16 (enc_toks ts) bw bh pw ph = Ok bmp /\
+    forall x y, 0 <= x < bw -> 0 <= y < bh -> bmp_read2 bmp x y = Some (pixel16 bw (nth (Z.to_nat y) rows []) x).
+Proof. exact bmp16_reader. Qed.
+Example C06_reader_example16 :      (* a 3 x 2 image: odd width, output rows padded from 6 to 8 bytes; runs end exactly at plane / row ends *)
+  let rows := [[x7c; x03; x00; x00; xe0; x1f]; [x7f; x7f; x7f; xff; xff; xff]] in
+  let ts := [TLit [x7c; x03; x00]; TLit [x00; xe0]; TLit [x1f]; TRun 3 x7f; TRun 3 xff] in
+  dec_toks ts = concat rows /\ confined 3 6 0 ts /\
+  match decode16 (enc_toks ts) 3 2 0 0 with
+  | Ok bmp => map (fun y => map (fun x => bmp_read2 bmp x y) [0; 1; 2]) [0; 1]
+              = [[Some [x00; x7c]; Some [xe0; x03]; Some [x1f; x00]];
+                 [Some [xff; x7f]; Some [xff; x7f]; Some [xff; x7f]]]
+  | _ => False
+  end.
+Proof. vm_compute. repeat split; try reflexivity; try discriminate; intros; exact I. Qed.
+
 (* non-vacuity of the reader theorems: the premises hold for a 3x2 image at offset (1,1) on a 5x3 canvas with the
    default palettes, and the reader sees the expected pixels in the file the model writes *)
 Definition ex_rows8 : list (list tok) := [[TRun 2 x07; TLit [x09; x00]]; [TLit [x01]; TRun 3 x00]].
@@ -244,3 +280,6 @@ Print Assumptions C06_bmp1_raw_reader.
 Print Assumptions C06_compressed24_pixels.
 Print Assumptions C06_compressed24_encoding_independent.
 Print Assumptions C06_bmp24_reader.
+Print Assumptions C06_compressed16_pixels.
+Print Assumptions C06_compressed16_encoding_independent.
+Print Assumptions C06_bmp16_reader.
